@@ -245,7 +245,7 @@ def run(ctx):
     r = vlib.rng(ctx.seed, "C01")
 
     # ---- programs --------------------------------------------------------------------------
-    n_gen = 80 if ctx.quick else 1200
+    n_gen = 80 if ctx.quick else 800
     progs = load_corpus()
     n_corpus = len(progs)
     for i in range(n_gen):
